@@ -76,7 +76,76 @@ def build_mirror(root):
     return m, ob
 
 
+def build_twobase(root):
+    """Two bases B1, B2 of a parametrised space Sub (and Sub3 deriving from Sub); the reference t is defined in one
+    or both bases (root["t1"], root["t2"] = [target, mode] or None), before or after the subs exist."""
+    reset_world()
+    m = mx.new_model("M")
+    env = {"m": m}
+    for l in ["Out = m.new_space('Out'); Out.new_cells('o', formula='lambda: 1')",
+              "B1 = m.new_space('B1'); B1.new_cells('foo', formula='lambda: 3')",
+              "B2 = m.new_space('B2'); B2.new_cells('foo', formula='lambda: 4')"]:
+        exec(l, env)
+    subs = ["Sub = m.new_space('Sub', bases=[m.B1, m.B2], formula='lambda i: None')",
+            "Sub3 = m.new_space('Sub3', bases=[m.Sub])"]
+    refs = [setref(b, root[k][0], root[k][1]) for b, k in (("B2", "t2"), ("B1", "t1")) if root.get(k)]
+    ob = ("ok", None)
+    if root["order"] == "ref-first":
+        for r in refs:
+            ob = O.apply_impl(m, r)
+        for l in subs:
+            exec(l, env)
+    else:
+        for l in subs:
+            exec(l, env)
+        for r in refs:
+            ob = O.apply_impl(m, r)
+    return m, ob
+
+
+def judge_twobase(m, root, case, viols, where="live"):
+    """Sub.t is derived from the first space of Sub's linearisation that defines t; the binding rule applies with
+    that space as definer."""
+    n = 0
+
+    def bad(clause, observed, expected):
+        viols.append({"clause": clause, "case": case, "observed": observed, "expected": expected})
+    sub_t = safe(lambda: m.Sub._get_object("t", as_proxy=True))
+    if isinstance(sub_t, str) or safe(lambda: sub_t.is_derived()) is not True:
+        return 0
+    definer = None
+    for b in safe(lambda: [x.name for x in m.Sub.bases]) or []:
+        cur = current_ref(m, b)
+        if cur is not None:
+            definer, (target, mode) = b, cur
+            break
+    if definer is None:
+        return 0
+
+    def see(expr, exp, clause):
+        nonlocal n
+        if exp is None:
+            return
+        ob = observe(lambda: name_of(eval("m." + expr, {"m": m})))
+        n += 1
+        if ob != ("ok", exp):
+            bad(clause, {"where": where, "expr": expr, "definer": definer, "mode": mode, "target": target,
+                         "got": ob}, exp)
+    sub_static = expected_static(definer, "Sub", target, mode)
+    see("Sub.t", sub_static, "static-2bases:" + mode)
+    if safe(lambda: m.Sub3._get_object("t", as_proxy=True).is_derived()) is True:
+        see("Sub3.t", expected_static(definer, "Sub3", target, mode), "static-2bases-subsub:" + mode)
+    if sub_static is not None and safe(lambda: m.Sub.formula is not None) is True:
+        see("Sub[1].t", expected_item("Sub", "Sub(1)", sub_static, mode), "item-2bases:" + mode)
+        ob = observe(lambda: m.Sub._get_object("t", as_proxy=True).refmode)
+        if ob != ("ok", mode):
+            bad("refmode-static", {"where": where, "space": "Sub", "got": ob}, mode)
+    return n
+
+
 def build(root):
+    if root.get("family") == "twobase":
+        return build_twobase(root)
     if root.get("family") == "mirror":
         return build_mirror(root)
     reset_world()
@@ -148,7 +217,7 @@ def expected_static(definer, deriver, target, mode):
     if target == definer:
         return deriver
     rest = target[len(definer) + 1:]
-    if "." not in rest and rest in ("x",):       # a cells of the defining space
+    if "." not in rest and rest in ("x", "foo"):       # a cells of the defining space
         return deriver + "." + rest
     return None     # descendant space / cells in a descendant: the statement is silent
 
@@ -180,6 +249,8 @@ def current_ref(m, definer):
 
 
 def judge(m, root, case, viols, where="live"):
+    if root.get("family") == "twobase":
+        return judge_twobase(m, root, case, viols, where)
     definer = root["definer"]
     cur = current_ref(m, definer)
     if cur is None:
@@ -312,6 +383,16 @@ def run_history(root, hist):
 
 
 def alphabet(root):
+    if root.get("family") == "twobase":
+        ops = []
+        for b in ("B1", "B2"):
+            for t, mode in ((b + ".foo", "auto"), (b + ".foo", "absolute"), (b + ".foo", "relative"), (b, "auto"),
+                            ("Out.o", "auto")):
+                ops.append(setref(b, t, mode))
+            ops.append(py("del m.%s.t" % b))
+        ops += [py("m.Sub.remove_bases(m.B1)"), py("m.Sub.add_bases(m.B1)"), py("m.Sub[1]", False),
+                py("m.Sub.clear_items()"), py("del m.Sub.t"), py("m.B1.new_cells('w', formula='lambda: 0')")]
+        return ops
     d = root["definer"]
     if root.get("family") == "mirror":
         ops = []
@@ -345,6 +426,11 @@ def roots(tier):
             for d in MIRROR_DEFINERS:
                 for t in (d, d + ".x"):
                     out.append({"family": "mirror", "definer": d, "target": t, "mode": mode, "order": order})
+    # two bases defining the reference: the derived reference can change its origin
+    for order in ("subs-first", "ref-first"):
+        for t1 in (None, ["B1.foo", "auto"], ["B1.foo", "absolute"], ["Out.o", "auto"]):
+            for t2 in (["B2.foo", "auto"], ["B2.foo", "absolute"], ["B2", "relative"]):
+                out.append({"family": "twobase", "definer": "B2", "t1": t1, "t2": t2, "order": order})
     return out
 
 
@@ -388,6 +474,20 @@ def shrink_candidates(case):
 
 def script(case):
     r = case["root"]
+    if r.get("family") == "twobase":
+        L = ["import modelx as mx", "m = mx.new_model('M')",
+             "Out = m.new_space('Out'); Out.new_cells('o', formula='lambda: 1')",
+             "B1 = m.new_space('B1'); B1.new_cells('foo', formula='lambda: 3')",
+             "B2 = m.new_space('B2'); B2.new_cells('foo', formula='lambda: 4')"]
+        subs = ["Sub = m.new_space('Sub', bases=[m.B1, m.B2], formula='lambda i: None')",
+                "Sub3 = m.new_space('Sub3', bases=[m.Sub])"]
+        refs = [setref(b, r[k][0], r[k][1])["code"] for b, k in (("B2", "t2"), ("B1", "t1")) if r.get(k)]
+        L += (refs + subs) if r["order"] == "ref-first" else (subs + refs)
+        for op in case["history"]:
+            L.append("try:\n    %s\nexcept Exception as e:\n    print('raised', type(e).__name__, e)" % op["code"])
+        for e in ("Sub.t", "Sub3.t", "Sub[1].t"):
+            L.append("try:\n    print(%r, m.%s)\nexcept Exception as e:\n    print(%r, 'raised', type(e).__name__, e)" % (e, e, e))
+        return "\n".join(L)
     if r.get("family") == "mirror":
         L = ["import modelx as mx", "m = mx.new_model('M')",
              "Out = m.new_space('Out'); Out.new_cells('o', formula='lambda: 1')",
